@@ -109,7 +109,7 @@ def _node(a, b, path, al):
         if not strict_ast._const_eq(a.value, b.value):
             al.diffs.append('%s: constant %r -> %r' % (path, a.value, b.value))
         return
-    if isinstance(a, ast.MatchClass):
+    if isinstance(a, getattr(ast, 'MatchClass', ())):
         if a.kwd_attrs != b.kwd_attrs:
             al.diffs.append('%s: class pattern keywords %r -> %r' % (path, a.kwd_attrs, b.kwd_attrs))
     for f in a._fields:
@@ -181,8 +181,8 @@ def name_of(node, sub):
         return node.name
     if isinstance(node, (ast.Global, ast.Nonlocal)):
         return node.names[sub]
-    if isinstance(node, (ast.MatchAs, ast.MatchStar)):
+    if hasattr(ast, 'MatchAs') and isinstance(node, (ast.MatchAs, ast.MatchStar)):
         return node.name
-    if isinstance(node, ast.MatchMapping):
+    if hasattr(ast, 'MatchMapping') and isinstance(node, ast.MatchMapping):
         return node.rest
     return node.name
